@@ -124,6 +124,12 @@ def c14_variants(tier: str) -> List[Dict[str, Any]]:
     fx = _v("local", "local", ["split"], "facade", 1.0 if tier == "thorough" else 0.5)
     fx["accept"] = ["vpkg"]
     v.append(fx)
+    # accept_module(<module object>) and the deprecated alias whitelist_module
+    for (form, lay, prefix) in (("object", "deep", "vpkg.a.b"), ("whitelist", "split", "vpkg")):
+        x = _v("local", "local", [lay], "from", 1.0 if tier == "thorough" else 0.34)
+        x["accept"] = [prefix]
+        x["accept_form"] = form
+        v.append(x)
     for (lay, seq, frac) in (("split", ["vpkg.sub_f1", "vpkg"], 0.5), ("deep", ["vpkg.a.b.c", "filler_x", "vpkg.a"], 0.5),
                              ("split", ["vpkg", "vpkg.sub_f2"], 0.34)):
         x = _v("local", "local", [lay], "from", 1.0 if tier == "thorough" else frac)
@@ -319,6 +325,8 @@ def run_family(prop: str, tier: str) -> int:
                 s2.real["plain_refs"] = True
             if v.get("inline"):
                 s2.real["inline_call_args"] = True
+            if v.get("accept_form"):
+                s2.real["accept_form"] = v["accept_form"]
             byname[s.name] = s2
         items = [(byname[h["shape"]], h["hist"]) for h in hs]
         if vi == 0:
@@ -348,6 +356,8 @@ def run_family(prop: str, tier: str) -> int:
             realisation += ",variables-named-like-" + v["var_names"] + "s"
         if v.get("pristine"):
             realisation += ",pristine-hashseed=%s" % v["pristine"].get("hashseed")
+        if v.get("accept_form"):
+            realisation += ",accept_module(" + v["accept_form"] + ")"
         if v.get("accept"):
             realisation += ",accept=%s+%d" % (v["accept"][0], len(v["accept"]) - 1)
             if len(v["accept"]) > 1 and not v["accept"][1].startswith("filler"):
